@@ -424,6 +424,19 @@ func init() {
 		E.reachedNow = append(E.reachedNow, a[0].(string))
 		return nil
 	})
+	g("Expect", func(fr *frame, a []value) value {
+		l := a[0].(string)
+		if _, ok := E.Expected[l]; !ok {
+			if len(E.pc) > 0 && E.z.check(E.pc) != "sat" {
+				panic(infraError{"Expect on an infeasible path"})
+			}
+			if len(E.pc) == 0 {
+				E.z.check(nil)
+			}
+			E.Expected[l] = E.concretiseAPI()
+		}
+		return nil
+	})
 	g("Observe", func(fr *frame, a []value) value {
 		v := a[1]
 		if i, ok := v.(iface); ok {
@@ -818,6 +831,14 @@ func init() {
 		return s
 	}
 	ex["math/rand/v2.IntN"] = ex["math/rand.Intn"]
+	ex["math/rand.Float64"] = func(fr *frame, a []value) value {
+		f := E.freshF("rand_float64", 64)
+		E.Assume(E.fpBinop(token.GEQ, types.Typ[types.Float64], f, float64(0)))
+		E.Assume(E.fpBinop(token.LSS, types.Typ[types.Float64], f, float64(1)))
+		E.envChoice = true
+		return f
+	}
+	ex["math/rand/v2.Float64"] = ex["math/rand.Float64"]
 
 	// ------------------------------------------------------------ misc runtime
 	ex["runtime.Gosched"] = func(fr *frame, a []value) value { E.yield(false); return nil }
